@@ -11,6 +11,7 @@ pub mod c04;
 pub mod c05;
 pub mod c06;
 pub mod c10;
+pub mod c13;
 pub mod c14;
 pub mod c16;
 pub mod tree;
@@ -59,6 +60,7 @@ pub fn get(id: &str) -> Option<Box<dyn Check>> {
         "C05" => Some(Box::new(c05::C05)),
         "C06" => Some(Box::new(c06::C06)),
         "C10" => Some(Box::new(c10::C10)),
+        "C13" => Some(Box::new(c13::C13)),
         "C14" => Some(Box::new(c14::C14)),
         "C16" => Some(Box::new(c16::C16)),
         _ => None,
